@@ -1537,6 +1537,13 @@ class Evaluator:
         if isinstance(v, Cond): return Cond(v.g, s.getitem(v.a, k), s.getitem(v.b, k))
         if isinstance(v, Ref) and v.kind == 'npfun' and v.name == 'r_' and isinstance(k, (tuple, list)) and not any(isinstance(x_, (str, Opq)) and (isinstance(x_, str) or x_.k[:1] == ('slice',)) for x_ in k):
             return s.npcall('hstack', [list(k)], {})              # np.r_[a, b, ...] joins its operands along the first axis (vectors: end to end)
+        if isinstance(v, Comp) and v.kind == 'dict' and len(v.gens) == 1 and isinstance(v.elt, tuple) and len(v.elt) == 2 and isinstance(k, Poly) and isinstance(v.elt[0], Poly):
+            # {x: f(x) for x in xs if ...}[k]  is  f(k)  (when the lookup succeeds at all)
+            beta_ = s.elem_of(v.gens[0][0], 0)
+            if isinstance(beta_, Poly) and beta_.as_atom() is not None and same(v.elt[0], beta_) and k.as_atom() is not None:
+                nk_ = subst_key(tkey(v.elt[1]), tkey(beta_), tkey(k), beta_.as_atom(), k.as_atom())
+                nv_ = term_from_key(nk_)
+                if nv_ is not None: return nv_
         if isinstance(v, Ref) and v.kind == 'class' and isinstance(k, str):
             em_ = s.enum_members(v.mod, v.node)
             if em_ is not None and k in em_: return em_[k]
